@@ -94,10 +94,10 @@ def _ev(f, val):
     return any(_ev(x, val) for x in f[1:])
 
 
-def dnf_equivalent(d1, d2, extra2=()):
-    """Are two path-condition DNFs (sets of frozensets of (text, polarity)) the same boolean function?  `extra2`:
-    literals conjoined to every conjunct of d2.  Decided by truth table over the leaf propositions (None if there
-    are too many)."""
+def dnf_compare(d1, d2, extra2=()):
+    """(d1 implies d2, d2 implies d1) for two path-condition DNFs (sets of frozensets of (text, polarity)) read as
+    boolean functions.  `extra2`: literals conjoined to every conjunct of d2.  Decided by truth table over the leaf
+    propositions; None if there are too many."""
     import itertools
     f1 = [[_formula(t, p_) for (t, p_) in c] for c in d1]
     f2 = [[_formula(t, p_) for (t, p_) in list(c) + list(extra2)] for c in d2]
@@ -108,13 +108,21 @@ def dnf_equivalent(d1, d2, extra2=()):
     vs = sorted(vs)
     if len(vs) > 16:
         return None
+    fwd = bwd = True
     for bits in itertools.product((False, True), repeat=len(vs)):
         val = dict(zip(vs, bits))
         a = any(all(_ev(f, val) for f in c) for c in f1)
         b = any(all(_ev(f, val) for f in c) for c in f2)
-        if a != b:
-            return False
-    return True
+        if a and not b:
+            fwd = False
+        if b and not a:
+            bwd = False
+    return (fwd, bwd)
+
+
+def dnf_equivalent(d1, d2, extra2=()):
+    r = dnf_compare(d1, d2, extra2)
+    return None if r is None else (r[0] and r[1])
 
 
 def _hash_version_exactly_when_versioned(fa, asg, val):
